@@ -412,9 +412,9 @@ class C10(Engine):
 		'x 6 schedules of 50-400 queries (by, exists, parent, ancestor, siblings, children, expand, values, id, source_map, node.parent/scope/namespace/fullyname/tokens/procedural/expandable properties, '
 		'NodeResolver.clear()) on one live index; answers are compared with the raw tree walked by the harness and with the same query multiset in canonical order on a fresh index; resolved classes with a '
 		'document-order pass on a fresh index. distinct_nontrivial = distinct (tree, query-kind bigram) pairs; states = distinct query-kind bigrams')
-	quick_runs = 1200
+	quick_runs = 2600
 	thorough_runs = 60000
-	quick_budget_s = 100.0
+	quick_budget_s = 90.0
 	thorough_budget_s = 1500.0
 	components_real = ['ASTFinder', 'EntryPath', 'EntryCache', 'Nodes', 'NodeResolver', 'Resolver', 'symbol_mapping()', 'every node class and its match_feature', 'per-module DI wiring (combine)', 'SyntaxParserOfLark for the corpus trees']
 	assumptions = ['entries are proxies: "returns that very entry" is checked on the underlying parser object (entry.source)', 'expected answers for expand and node-level accessors come from the canonical-order run, not from the raw tree']
